@@ -29,6 +29,7 @@ op:
   ["call", [assignees], fname, [args], {kw}]
   ["if", cond, [ops], [else-ops] | null]
   ["yield", expr, time] | ["fail"] | ["raise"] | ["switch", name] | ["restart"]
+  ["abandon", [ops]]              with builder: <ops>; then the body raises, the caller catches it and goes on building
   ["fresh", prefix, rhs]          name = builder.fresh_var_name(prefix); name <- rhs; later written "$k" (k-th fresh)
   ["implicit", [assignees], [solve], [exprs], {params}]
 expr: number | bool | "name" | ["+"|"*"|"-"|"%"|"/"|"**", e, e] | ["[]", e, e] | ["call", f, [e], {kw}] |
@@ -333,6 +334,25 @@ def build(ops):
                 b.assign_implicit(tuple(op[1]), tuple(op[2]), tuple(dec(x, fr) for x in op[3]),
                                   {k_: dec(v, fr) for k_, v in sorted((op[4] if len(op) > 4 else {}).items())},
                                   "solver")
+            elif k == "abandon":
+                # `with builder:` entered again; its body makes the calls op[1] and then fails; the caller catches the
+                # exception and goes on building.  Every statement written before the failure stays written.
+                class _Abandoned(Exception):
+                    pass
+                n_before = len(b.statements)
+                try:
+                    with b:
+                        go(op[1], stack)
+                        n_inside = len(b.statements)
+                        raise _Abandoned()
+                except _Abandoned:
+                    pass
+                if len(b.statements) != n_inside:
+                    info.setdefault("lost", []).append("%d statement(s) written inside a `with builder:` block whose body "
+                                                       "failed afterwards are no longer in builder.statements"
+                                                       % (n_inside - len(b.statements)))
+                    del info["guards"][len(b.statements):]
+                continue
             elif k == "reserve":
                 # temporaries allocated up front: the name is handed out now and used only later (as "$k")
                 name = b.fresh_var_name(op[1])
@@ -574,6 +594,8 @@ def analyse(inp, max_ext=150, nrandom=12, extra_edges=None, want_schedule=True):
         if lits != [tuple(x) for x in info["guards"][i]]:
             viol.append(("guard", "%s has guard %s, expected the conjunction of %s"
                          % (s.id, getattr(s, "condition", True), info["guards"][i]), None))
+    for msg in info.get("lost", []):
+        viol.append(("structural", msg, None))
     # fresh-name clause
     for c in info["collisions"]:
         viol.append(("fresh-name", "%s returned %r, already used by the user program in positions %s"
@@ -941,6 +963,16 @@ def bounded(payload):
         ops.append(["assign", "<state>y", ["+", "$0", "$%d" % (len(prefixes) - 1)]])
         run({"ops": ops, "ctx": SMALL_CTX}, "exhaustive_programs")
         parts["reserved_up_front_programs"] = parts.get("reserved_up_front_programs", 0) + 1
+
+    # a `with builder:` block that fails part-way (the caller catches the exception and keeps building)
+    for inner in ([["assign", "<state>y", 1], ["assign", "w", 7]], [["assign", "x", ["+", "x", 1]]],
+                  [["assign", "<state>y", ["+", "<state>y", 1]], ["yield", "<state>y", "<t>"]], []):
+        for tail in ([["assign", "w2", 7], ["assign", "z", ["*", "<state>y", 2]]],
+                     [["assign", "<state>y", ["+", "x", 2]], ["assign", "z", ["+", "<state>y", "x"]]],
+                     [["if", ["cmp", ">", "x", 0], [["assign", "z", "<state>y"]], [["assign", "z", 0]]]]):
+            ops = [["assign", "u", ["+", "x", 1]], ["abandon", copy.deepcopy(inner)]] + copy.deepcopy(tail)
+            run({"ops": ops, "ctx": SMALL_CTX}, "exhaustive_programs")
+            parts["abandoned_with_block_programs"] = parts.get("abandoned_with_block_programs", 0) + 1
 
     pool = small_pool()
     sub = [pool[k] for k in SUBPOOL]
